@@ -621,6 +621,26 @@ class Symx:
                 r = self.models[nm](self, margs, t)
                 if r is not None:
                     return done(r)
+        # Option::is_some / is_none of a known variant
+        if names and names[0] in ('core::option::Option::is_some', 'core::option::Option::is_none') and len(args) == 1:
+            a0 = args[0]
+            for _ in range(3):
+                if a0[0] == 'valref':
+                    a0 = a0[1]
+                elif a0[0] == 'ref':
+                    a0 = self._read(st, a0[1], a0[2])
+            if a0[0] == 'agg' and a0[2] in ('Some', 'None'):
+                return done(K(int((a0[2] == 'Some') == names[0].endswith('is_some'))))
+        # derive(PartialEq) / primitive equality of two constants
+        if names and names[0] in ('core::cmp::PartialEq::eq', 'core::cmp::PartialEq::ne') and len(args) == 2:
+            impl = self.fx.fns.get(names[-1]) if len(names) > 1 else None
+            derived = (impl is not None and impl.d.get('exp')) or (len(names) == 1 and (t.cargs() or ['?'])[0] in MASK)
+            if derived:
+                cv = [self._const_view(st, a) for a in args]
+                if cv[0] is not None and cv[1] is not None:
+                    same = self._const_eq(cv[0], cv[1])
+                    if same is not None:
+                        return done(K(int(same if names[0].endswith('::eq') else not same)))
         # Default::default() of primitive integers / bool
         if 'core::default::Default::default' in names and not args:
             ty = (t.cargs() or ['?'])[0]
@@ -737,6 +757,47 @@ class Symx:
         self._havoc_mut_args(fn, st, t, args)
         self.uid += 1
         return done(('call', name, tuple(shown), self.uid))
+
+    def _const_view(self, st, a):
+        """the constant a (reference to a) value denotes, or None"""
+        for _ in range(4):
+            if a[0] == 'valref':
+                a = a[1]
+            elif a[0] == 'ref':
+                a = self._read(st, a[1], a[2])
+            else:
+                break
+        if a[0] == 'k':
+            return a
+        if a[0] == 'agg' and all(self._const_view(st, x) is not None for x in a[4]):
+            return a
+        return None
+
+    def _const_eq(self, x, y):
+        if x[0] == 'k' and y[0] == 'k':
+            return x[1] == y[1]
+        if x[0] == 'agg' and y[0] == 'agg':
+            if x[1] != y[1]:
+                return None
+            if x[2] != y[2]:
+                return False
+            if len(x[4]) != len(y[4]):
+                return None
+            for p, q in zip(x[4], y[4]):
+                r = self._const_eq(p if p[0] != 'valref' else p[1], q if q[0] != 'valref' else q[1])
+                if r is None:
+                    return None
+                if not r:
+                    return False
+            return True
+        # a fieldless enum value seen once as its discriminant and once as a variant
+        if x[0] == 'k' and y[0] == 'agg':
+            x, y = y, x
+        if x[0] == 'agg' and y[0] == 'k' and not x[4] and x[2]:
+            d = self.fx.discr_of(x[1], x[2])
+            if d is not None:
+                return int(d) == int(y[1])
+        return None
 
     def _shown(self, fn, st, t, args):
         shown = []
